@@ -184,7 +184,12 @@ fn one_run(run: u64, si: usize, s: &Value, kind: &str, ms: &[usize], rng: &mut i
             } else {
                 (rng.random_range(0..top), rng.random_range(0..top))
             };
-            b.swap(i, j);
+            if rng.random_range(0..3) == 0 {
+                // ... or a single byte changed (a hasher that drops a byte)
+                b[i] ^= rng.random_range(1..=255u8);
+            } else {
+                b.swap(i, j);
+            }
             it.id = u64::from_le_bytes(b);
             it.w = prev.w;
         }
@@ -195,6 +200,13 @@ fn one_run(run: u64, si: usize, s: &Value, kind: &str, ms: &[usize], rng: &mut i
             it.id = rng.random::<u64>() & if narrow { 0xffff_ffff } else { u64::MAX };
         }
         items.push(it);
+    }
+    // ProbMinHash: in a quarter of the runs one item IS the object the constructor fills the signature with (a user may
+    // well pick an initial object that also occurs in the data); `initx` is its index, 0 if there is none
+    let mut initx = 0usize;
+    if is_pmh && !items.is_empty() && rng.random_range(0..4) == 0 {
+        initx = 1 + rng.random_range(0..items.len());
+        items[initx - 1].id = INITOBJ;
     }
     // measured tables: fresh sketcher, one item, read the registers
     let mut tables: Vec<Vec<Vec<u128>>> = Vec::new(); // [class][item][pos]
@@ -216,7 +228,9 @@ fn one_run(run: u64, si: usize, s: &Value, kind: &str, ms: &[usize], rng: &mut i
                     hs = true;
                     // identity under which this item is stored: first non-placeholder entry
                     let ph = if is_pmh { INITOBJ } else { 0 };
-                    if let Some(v) = sg.iter().find(|v| **v != ph) {
+                    if is_pmh && it0.id == INITOBJ {
+                        // this item is stored under the initial object itself: reported as -2 by sig_of
+                    } else if let Some(v) = sg.iter().find(|v| **v != ph) {
                         if st.insert(*v, n + 1).is_some() {
                             coll = true;
                         }
@@ -263,6 +277,8 @@ fn one_run(run: u64, si: usize, s: &Value, kind: &str, ms: &[usize], rng: &mut i
                 .map(|h| {
                     if let Some(i) = stored.get(h) {
                         *i as i64
+                    } else if is_pmh && *h == INITOBJ && initx > 0 {
+                        -2 // the initial object, which is also item `initx` of this run
                     } else if (is_pmh && *h == INITOBJ) || (!is_pmh && *h == 0) {
                         0
                     } else {
@@ -420,6 +436,7 @@ fn one_run(run: u64, si: usize, s: &Value, kind: &str, ms: &[usize], rng: &mut i
         // signature class per instance: instances of one class that hold the same set must show the same stored identities
         // (composite kinds - ProbMinHash3 with 3a, weights scaled by a power of two - form one class by the property)
         "sc": pc.iter().map(|c| if kind2.is_some() { 1 } else { *c }).collect::<Vec<usize>>(),
+        "initx": initx,
         "fullkind": full_kind, "wscale_log2": wscale.log2(), "minw": if items.is_empty() { 1.0 } else { items.iter().map(|i| i.w).fold(f64::INFINITY, f64::min) },
         "items": items.iter().map(|i| json!([i.id.to_string(), i.w])).collect::<Vec<_>>()}));
     for e in evs {
@@ -646,6 +663,35 @@ fn big(a: &Args) {
     write_json(&a.str("out"), &json!({"cases": cases}));
 }
 
+/// tinyprobe out=<json> : the clause "every position of a non-empty set's signature holds an item of that set" on fixed
+/// one-entry sets with weights at the low end of the f64 range (a fixed input, so that a defect there is reported the same
+/// way in every run)
+fn tinyprobe(a: &Args) {
+    silence_panics();
+    let mut cases: Vec<Value> = Vec::new();
+    for kind in KINDS_PMH {
+        for (m, w) in [(16usize, 9.27380003068656e-308f64), (16, 3.0e-306), (64, 1.0e-305), (16, 1.0e-300), (16, 1.0e-200)] {
+            let cfg = Cfg { kind: kind.to_string(), m, ss: None };
+            let it = Item { id: 12345, w };
+            let r = catch(|| {
+                let mut sk = make(&cfg);
+                let ents = sk.entries();
+                sk.batch(&[it], ents[0]);
+                sk.sig().unwrap_or_default()
+            });
+            match r {
+                Ok(sig) => {
+                    let left = sig.iter().filter(|v| **v == INITOBJ).count();
+                    let foreign = sig.iter().filter(|v| **v != INITOBJ && **v != it.id).count();
+                    cases.push(json!({"kind": kind, "m": m, "weight": format!("{:e}", w), "tiny": w < 1e-304, "placeholder_positions": left, "foreign_positions": foreign}));
+                }
+                Err(msg) => cases.push(json!({"kind": kind, "m": m, "weight": format!("{:e}", w), "tiny": w < 1e-304, "panic": msg})),
+            }
+        }
+    }
+    write_json(&a.str("out"), &json!({"cases": cases}));
+}
+
 fn main() {
     let argv: Vec<String> = std::env::args().collect();
     if argv.len() < 2 {
@@ -656,6 +702,7 @@ fn main() {
         "replay" => replay(&a),
         "random" => random(&a),
         "big" => big(&a),
+        "tinyprobe" => tinyprobe(&a),
         other => tool_error(&format!("unknown subcommand {}", other)),
     }
 }
